@@ -122,8 +122,9 @@ fn args(rng: &mut Rng, n: usize, all: bool) {
             if furibug && r.chance(1, 2) { s.insert(0, '|'); h.bump("furigana_line"); }
             strings.push(s);
         }
-        // masks: none, random, or chosen so that a byte of the text is masked to NUL
-        let mut mask = if r.chance(1, 3) { [0u8, 0, 0] } else { [r.below(256) as u8, r.below(256) as u8, r.below(256) as u8] };
+        // masks: every zero/non-zero shape of (mask, velocity, acceleration), 0xFF and wrap-around steps, random, or chosen so that a
+        // byte of the text is masked to NUL
+        let mut mask = gen_mask(&mut r, &mut h);
         if r.chance(1, 4) {
             if let Some(b) = sjis_encode(&strings[0]) { if !b.is_empty() { let k = r.below(b.len() as u64) as usize;
                 // constant mask equal to byte k: that byte is stored as NUL
@@ -164,7 +165,7 @@ fn meta(rng: &mut Rng, n: usize) {
         let mut r = rng.fork();
         let is_anm = i % 2 == 0;
         let unit = if is_anm { 16 } else { 128 };
-        let target = match r.below(7) { 0 => 1, 1 => unit - 1, 2 => unit, 3 => unit + 1, 4 => 2 * unit - 1, _ => 1 + r.below(2 * unit as u64 + 4) as usize };
+        let target = match r.below(9) { 0 => 1, 1 => unit - 1, 2 => unit, 3 => unit + 1, 4 => 2 * unit - 1, 5 => 2 * unit, 6 => 3 * unit, _ => 1 + r.below(2 * unit as u64 + 4) as usize };
         let pool: &[char] = if r.chance(1, 3) { &ascii } else { &good };
         let sweep = !std::ptr::eq(pool.as_ptr(), ascii.as_ptr());
         let mut s = string_of_bytes(&mut r, pool, target, &mut cursor, sweep);
@@ -173,9 +174,11 @@ fn meta(rng: &mut Rng, n: usize) {
         if r.chance(1, 50) { let mut cs: Vec<char> = s.chars().collect(); cs.insert(cs.len() / 2, '\0'); s = cs.into_iter().collect(); h.bump("with_nul"); }
         let (sj, sjd) = table_for(&s);
         let good_string = s.chars().all(|c| c != '\0' && good.contains(&c));
-        let res: Outcome<String> = if is_anm { h.bump("anm_path"); anm_path_roundtrip(&s, &dir) } else { h.bump("std_name"); std_name_roundtrip(&s, &dir) };
+        // ANM entries have two names: the image path and (optionally) a second path written right behind it
+        let second = is_anm && r.chance(1, 2);
+        let res: Outcome<String> = if is_anm { h.bump(if second { "anm_path_2" } else { "anm_path" }); anm_path_roundtrip(&s, second, &dir) } else { h.bump("std_name"); std_name_roundtrip(&s, &dir) };
         let obs = match &res { Outcome::Ok(t) => format!("(IOk {})", str_term(t)), Outcome::Err(_) => "IErr".into(), Outcome::Panic(_) => "IPanic".into() };
-        let input = format!("{} {}", if is_anm { "anm-path" } else { "std-name" }, str_src(&s));
+        let input = format!("{} {}", if second { "anm-path_2" } else if is_anm { "anm-path" } else { "std-name" }, str_src(&s));
         println!("{}\t{} {} {} {} {} {}\t{}", if is_anm { "PATH" } else { "NAME" }, if is_anm { "KPath" } else { "KName" }, unit, str_term(&s), sj, sjd, obs, one_line(&input));
         match &res {
             Outcome::Panic(p) => println!("ORACLE-FAIL\tpanic: while writing or reading a file with this metadata string\t{}\t{}", one_line(p), one_line(&input)),
@@ -192,21 +195,24 @@ fn meta(rng: &mut Rng, n: usize) {
     println!("STATS\thist={:?}", h.0);
 }
 
-fn anm_path_roundtrip(s: &str, dir: &std::path::Path) -> Outcome<String> {
-    let text = format!("entry {{ path: {}, has_data: false, img_width: 16, img_height: 16, img_format: 1, sprites: {{}} }}\nscript script0 {{\n}}\n", str_src(s));
+fn anm_path_roundtrip(s: &str, second: bool, dir: &std::path::Path) -> Outcome<String> {
+    let names = if second { format!("path: \"subdir/image.png\", path_2: {}", str_src(s)) } else { format!("path: {}", str_src(s)) };
+    let text = format!("entry {{ {}, has_data: false, img_width: 16, img_height: 16, img_format: 1, sprites: {{ sprite0: {{id: 0, x: 1.0, y: 2.0, w: 3.0, h: 4.0}} }} }}\nscript script0 {{\n}}\n", names);
+    // only the TH06-era entry header has a slot for the second path
+    let game = if second { Game::Th06 } else { Game::Th12 };
     let file = dir.join("meta.anm");
     let r = catch(|| -> Result<String, String> {
         let mut scope = truth::Builder::new().capture_diagnostics(true).build();
         let mut truth = scope.truth();
         let res = (|| -> Result<String, truth::ErrorReported> {
-            truth.apply_mapfile_str("!anmmap\n", Game::Th12)?;
+            truth.apply_mapfile_str("!anmmap\n", game)?;
             let ast = truth.parse::<ast::ScriptFile>("<input>", text.as_bytes())?.value;
             let mut t = truth.validate_defs()?;
-            let w = t.compile_anm(Game::Th12, &ast)?;
-            let anm = t.finalize_anm(Game::Th12, w)?;
-            t.write_anm(Game::Th12, &file, &anm)?;
-            let back = t.read_anm(Game::Th12, &file, false)?;
-            Ok(back.entries[0].path.value.clone())
+            let w = t.compile_anm(game, &ast)?;
+            let anm = t.finalize_anm(game, w)?;
+            t.write_anm(game, &file, &anm)?;
+            let back = t.read_anm(game, &file, false)?;
+            Ok(if second { back.entries[0].path_2.as_ref().map(|p| p.value.clone()).unwrap_or_default() } else { back.entries[0].path.value.clone() })
         })();
         let diag = truth.get_captured_diagnostics().unwrap_or_default();
         res.map_err(|_| diag)
